@@ -34,7 +34,7 @@ var v1Strings = []string{"", " ", "\t", "  ", "ab", "x", ">>", "\n", " \t x", "Ã
 func (sc *V1Misc) Run(t *core.Tape, env *Env) (any, []core.Violation) {
 	s := t.S("plan")
 	p := &V1MiscPlan{}
-	p.Op = []string{"Indent", "Indent", "Indent", "Compact", "HTMLEscape", "Valid", "MarshalIndent", "Encoder.SetIndent", "Unmarshal-syntactic-error-from-user-code", "Unmarshal-legacy-user-error-then-continue", "Unmarshal-legacy-user-error-then-continue", "HTMLEscape", "Unmarshal-odd-interface-map-key", "Value-methods"}[s.Draw(14)]
+	p.Op = []string{"Indent", "Indent", "Indent", "Compact", "HTMLEscape", "Valid", "MarshalIndent", "Encoder.SetIndent", "Unmarshal-syntactic-error-from-user-code", "Unmarshal-legacy-user-error-then-continue", "Unmarshal-legacy-user-error-then-continue", "HTMLEscape", "Unmarshal-odd-interface-map-key", "Value-methods", "Value-methods", "Value-methods"}[s.Draw(16)]
 	src := gen.Text(s, gen.JSONCfg{MaxBytes: 16 + s.Draw(300), MaxDepth: 1 + s.Draw(4), DupNames: true, InvalidUTF8: s.Chance(1, 4), CollideNames: s.Chance(1, 3)})
 	if s.Chance(1, 3) {
 		src = gen.Mutate(s, src)
@@ -166,7 +166,10 @@ func (sc *V1Misc) Run(t *core.Tape, env *Env) (any, []core.Violation) {
 			}
 			v := jsontext.Value(append([]byte(nil), src...))
 			opts := []jsontext.Options{jsontext.AllowInvalidUTF8(s.Bool()), jsontext.AllowDuplicateNames(s.Bool())}
-			if s.Bool() {
+			if s.Chance(1, 3) {
+				// everything is let through and kept as it is, only the order changes
+				opts = []jsontext.Options{jsontext.AllowInvalidUTF8(true), jsontext.AllowDuplicateNames(true), jsontext.PreserveRawStrings(true), jsontext.ReorderRawObjects(true)}
+			} else if s.Bool() {
 				opts = append(opts, jsontext.PreserveRawStrings(s.Bool()), jsontext.ReorderRawObjects(s.Bool()), jsontext.CanonicalizeRawInts(s.Bool()), jsontext.CanonicalizeRawFloats(s.Bool()))
 			}
 			switch s.Draw(5) {
